@@ -37,7 +37,7 @@ RULE = ("seeded atom arrays / stacks (1-12 atoms, 1-3 models, optional atom_id/b
         "(text of every line compared), a malformed stream (one field beyond its column: model and code must both "
         "refuse, incl. NaN/inf), get_structure(model=k) for k in -M-3..M+2, files with alternate locations read with altloc=first/occupancy/all, raw ATOM lines in non-canonical but valid layouts for the reader, hybrid-36 numbers at all range "
         "borders for widths 1-5; oracle: independent PDB column table + write/read equality + exhaustive width-4 "
-        "hybrid-36 (thorough: strided width 5). non-trivial = has an atom or a hybrid-36 op; distinct = different op text")
+        "hybrid-36 (thorough: strided width 5); purity / object-reuse / refused-call / NumPy-spelling / entry-point oracles on the written cases. non-trivial = has an atom or a hybrid-36 op; distinct = different op text")
 TRUSTED = ["numpy chararray concatenation/justification and rstrip-on-index modelled by documented semantics",
            "CPython float formatting (format(x, '.3f')) and float() modelled as exact round-half-even / exact decimal reading",
            "BondList construction (C02) and filter_solvent are inputs of the model, not verified here"]
